@@ -399,7 +399,12 @@ where
     let mut done = 0u32;
     // We drive generation ourselves (new_tree + manual shrink) so that one failure does not end
     // the campaign and counters are not disturbed by shrinking.
+    let mut failing_evals = 0u32;
     while done < cases {
+        // a campaign that keeps failing is cut short: the verdict is already known and failing cases may be slow
+        if failing_evals >= 12 {
+            break;
+        }
         done += 1;
         let mut tree = match strategy.new_tree(&mut runner) {
             Ok(t) => t,
@@ -415,6 +420,7 @@ where
             }
             Err((sig, msg)) => {
                 stats.evaluations += 1;
+                failing_evals += 1;
                 if seen_sigs.contains(&sig) {
                     continue;
                 }
@@ -426,7 +432,7 @@ where
                 if tree.simplify() {
                     loop {
                         iters += 1;
-                        if iters > 200_000 || shrink_started.elapsed().as_secs() > 30 {
+                        if iters > 200_000 || shrink_started.elapsed().as_secs() > 20 {
                             break;
                         }
                         let cand = tree.current();
